@@ -45,6 +45,14 @@
 (***************************************************************************)
 EXTENDS Integers, Sequences, FiniteSets, TLC, Rat
 
+(* TLC evaluates the arguments of its Java-implemented operators (Append,   *)
+(* \o, Len, ToJson, ..) lazily: a function constructor handed to them stays *)
+(* an unevaluated closure whose body is re-evaluated at every application.  *)
+(* Push/Unshift build sequences with function constructors only, which are  *)
+(* evaluated eagerly; this keeps the recursions below linear.               *)
+Push(s, e)    == LET k == Len(s) IN [r \in 1..(k + 1) |-> IF r <= k THEN s[r] ELSE e]
+Unshift(e, s) == LET k == Len(s) IN [r \in 1..(k + 1) |-> IF r = 1 THEN e ELSE s[r - 1]]
+
 RECURSIVE SumInts(_, _, _)
 SumInts(f, lo, hi) == IF lo > hi THEN 0 ELSE f[lo] + SumInts(f, lo + 1, hi)
 
@@ -148,7 +156,7 @@ AlphaRec(P, x, t, acc) ==
            T    == TMat(P, Len(x), t)
            row  == [j \in 1..P.m |->
                       Emit1(P, j, x[t]) * SumInts([i \in 1..P.m |-> T[i][j] * prev[i]], 1, P.m)]
-       IN AlphaRec(P, x, t + 1, Append(acc, row))
+       IN AlphaRec(P, x, t + 1, Push(acc, row))
 Alpha(P, x) == AlphaRec(P, x, 2, << [i \in 1..P.m |-> P.pi[i] * Emit1(P, i, x[1])] >>)
 
 (* backward: beta[n][i] = 1, beta[t][i] = SUM_j T_{t+1}(i,j) e(j,x_{t+1}) beta[t+1][j];  *)
@@ -160,7 +168,7 @@ BetaRec(P, x, t, acc) ==
            T    == TMat(P, Len(x), t + 1)
            row  == [i \in 1..P.m |->
                       SumInts([j \in 1..P.m |-> T[i][j] * Emit1(P, j, x[t + 1]) * next[j]], 1, P.m)]
-       IN BetaRec(P, x, t - 1, <<row>> \o acc)
+       IN BetaRec(P, x, t - 1, Unshift(row, acc))
 Beta(P, x) == BetaRec(P, x, Len(x) - 1, << [i \in 1..P.m |-> 1] >>)
 
 (* forward pass restricted to the state sets q[1..n] (statistics/generic/hmm.go Posterior) *)
@@ -174,7 +182,7 @@ AlphaQRec(P, x, q, t, acc) ==
                       THEN Emit1(P, j, x[t]) *
                            SumInts([i \in 1..P.m |-> IF i \in q[t - 1] THEN T[i][j] * prev[i] ELSE 0], 1, P.m)
                       ELSE 0]
-       IN AlphaQRec(P, x, q, t + 1, Append(acc, row))
+       IN AlphaQRec(P, x, q, t + 1, Push(acc, row))
 AlphaQ(P, x, q) ==
   AlphaQRec(P, x, q, 2, << [i \in 1..P.m |-> IF i \in q[1] THEN P.pi[i] * Emit1(P, i, x[1]) ELSE 0] >>)
 
@@ -188,10 +196,10 @@ ViterbiRec(P, x, t, delta, psi) ==
            best == [j \in 1..P.m |-> MaxInts(cand[j], 1, P.m)]
            drow == [j \in 1..P.m |-> Emit1(P, j, x[t]) * best[j]]
            prow == [j \in 1..P.m |-> FirstArgMax(cand[j], 1, P.m, best[j])]
-       IN ViterbiRec(P, x, t + 1, Append(delta, drow), Append(psi, prow))
+       IN ViterbiRec(P, x, t + 1, Push(delta, drow), Push(psi, prow))
 RECURSIVE BackTrack(_, _, _)
 BackTrack(psi, t, path) ==     \* path holds the states of positions t..n
-  IF t = 1 THEN path ELSE BackTrack(psi, t - 1, <<psi[t][path[1]]>> \o path)
+  IF t = 1 THEN path ELSE BackTrack(psi, t - 1, Unshift(psi[t][path[1]], path))
 ViterbiMech(P, x) ==
   LET n  == Len(x)
       v  == ViterbiRec(P, x, 2, << [i \in 1..P.m |-> P.pi[i] * Emit1(P, i, x[1])] >>,
